@@ -67,7 +67,7 @@ RULE = ('cases = (timeout T, list of external events) run against the real aiuti
         'loop: Submit of the five producer kinds (plain call, map of a list, map of an iterator incl. failing part-way, await_, amap; '
         'awaitables / async iterables take their yields, failure — ordinary Exception or CancelledError raised by the producer, by id '
         'parity — and end from the script), Advance dt, wait(cancel=True/False), submit+wait in one task step, FnOk / FnFail (the '
-        'harness-owned function parks until told, its set is copied at the start and re-read at the end), Shutdown, and the foreign-thread '
+        'harness-owned function parks until told, its set is copied at the start and re-read at the end; it is a bound method / a callable object without __qualname__ / a functools.partial, and FnFail makes it raise an Exception or its own asyncio.CancelledError, chosen per case by a checksum of the event list), Shutdown, and the foreign-thread '
         'halves of _put (FClear, FPut, FnOkThenFClear) performed by a real second thread going through the public API.  corpus: named '
         'scenarios (retry after failure, prefix of failing producers, submission under a running call, foreign halves, duplicates) x 2 '
         'timeouts; exhaustive layer: every word of <=4 (quick) / <=5 (thorough) letters over {plain, failing iterator, awaitable, async '
